@@ -9,7 +9,7 @@ another shape at the path, finding G) - and `DropsLow`: a task that drops the le
 generation of it (otherwise its context keeps a version that a staler copy inherits at the next join:
 finding G again, see `drop_after_two_generations_fails`).
 -/
-import Mistral.Lemmas.HistDel
+import Mistral.Lemmas.HistChain
 
 namespace Mistral.Props.C05Drop
 open Mistral Mistral.Dict Mistral.Ctx Mistral.Hist
@@ -109,6 +109,22 @@ theorem latest_publisher_visible_dropping (h : List Task) (k0 : String) (rest : 
       omega
     · exact ⟨d, rd.task, (tie.anc i r hr d).mp hdm, tie.task d rd hrd, hdr⟩
 
+/-- `DropsLow` is implied by a condition on the DAG alone (`DropsAfterOneGeneration`): no task that
+    republishes the variable without the leaf has, among its causal ancestors, two publishers of the leaf
+    one of which follows the other.  (The version of a path counts generations of its publishers.) -/
+theorem dropsLow_from_dag (k0 : String) (rest : List String) (h : List Task)
+    (hs : ∀ t ∈ h, StablePub2 k0 rest t.pub) (hd : DropsAfterOneGeneration k0 rest h) : DropsLow k0 rest h :=
+  dropsLow_of_one_generation k0 rest h hs hd
+
+/-- the causal theorem with hypotheses on the history alone -/
+theorem stale_copy_never_visible_dag (h : List Task) (k0 : String) (rest : List String)
+    (hk : k0 ≠ "__task_execution") (hs : ∀ t ∈ h, StablePub2 k0 rest t.pub)
+    (hd : DropsAfterOneGeneration k0 rest h)
+    (i : Nat) (r : Row) (hr : (runRows h)[i]? = some r) (x : Val) (hx : leafAt r.inb.data k0 rest = some x) :
+    ∃ q tq, Anc h q i ∧ h[q]? = some tq ∧ leafAt tq.pub k0 rest = some x ∧
+      ∀ q' t', Anc h q' i → h[q']? = some t' → PublishesLeaf k0 rest t' → ¬ Anc h q q' :=
+  stale_copy_never_visible_dropping h k0 rest hk hs (dropsLow_from_dag k0 rest h hs hd) i r hr x hx
+
 /-! ### non-vacuity: the scenario of the seeded change -/
 
 /-- t0 publishes d = {x: 0, y: 0}; fork: t1 (a) republishes d = {x: "A", y: 0}; t2 (b) republishes d WHOLESALE
@@ -130,6 +146,23 @@ example : ∀ t ∈ exD, StablePub2 "d" ["x"] t.pub := by decide
 
 /-- and the dropping task t2 has seen one generation of d.x (its inbound version is 1) -/
 example : DropsLow "d" ["x"] exD := by decide
+
+/-- ... also in the DAG-only form: the only dropping task is t2, whose only ancestor is t0 -/
+example : DropsAfterOneGeneration "d" ["x"] exD := by
+  intro i t hi hdr ⟨q1, q2, t1, t2, a1, a2, _, _, _, _, a12⟩
+  have h1 := anc_lt a1
+  have h2 := anc_lt a2
+  have h12 := anc_lt a12
+  match i with
+  | 0 | 1 => omega
+  | 2 =>
+    have hq2 : q2 = 1 := by omega
+    subst hq2
+    cases a2 with
+    | parent hi' hp _ => simp [exD] at hi'; subst hi'; simp at hp
+    | trans hi' hp _ a' => simp [exD] at hi'; subst hi'; simp at hp; subst hp; exact absurd (anc_lt a') (by omega)
+  | 3 | 4 | 5 | 6 => simp [exD] at hi; subst hi; exact absurd hdr (by decide)
+  | n + 7 => simp [exD] at hi
 
 theorem exD_anc_1_6 : Anc exD 1 6 :=
   Anc.trans (p := 5) (t := ⟨[5, 3], []⟩) rfl (by decide) (by decide)
